@@ -112,6 +112,10 @@ var targets = []target{
 	{Group: "Nft", Mod: "nft", Pkg: "keeper", Func: "Keeper.MintNFT", Lean: "MintNFT", Guards: true, Conds: true},
 	{Group: "Nft", Mod: "nft", Pkg: "keeper", Func: "Keeper.TransferDenomOwner", Lean: "TransferDenomOwner", Guards: true, Conds: true},
 	{Group: "Nft", Mod: "nft", Pkg: "keeper", Func: "Keeper.Authorize", Lean: "Authorize", Guards: true, Conds: true},
+	{Group: "Oracle", Mod: "oracle", Pkg: "keeper", Func: "Keeper.SetFeedValue", Lean: "SetFeedValue",
+		Locals: []string{"delta"}, Calls: []string{"deleteOldestFeedValue"}, Guards: true, Conds: true},
+	{Group: "Oracle", Mod: "oracle", Pkg: "keeper", Func: "Keeper.EditFeed", Lean: "EditFeed",
+		Locals: []string{"expectCnt", "feed_LatestHistory"}, Calls: []string{"deleteOldestFeedValue"}, Guards: true, Conds: true},
 	{Group: "Random", Mod: "random", Pkg: "types", Func: "PRNG.GetRand", Lean: "GetRand",
 		Locals: []string{"seedBT", "seedBH", "seedTI", "seedSum", "seedOS", "precision"}, Conds: true},
 	{Group: "TokenFee", Mod: "token", Pkg: "keeper", Func: "Keeper.MintToken", Lean: "MintToken",
@@ -1054,7 +1058,7 @@ func translateLocals(p *packages.Package, fd *ast.FuncDecl, tg target, knownGo m
 			return true
 		})
 		for _, is := range ifs {
-			if is.Init != nil || (is.Else != nil && !tg.Conds) || len(is.Body.List) == 0 {
+			if (is.Else != nil && !tg.Conds) || len(is.Body.List) == 0 {
 				continue
 			}
 			isGuard := false
